@@ -96,10 +96,10 @@ def handleC07 : List String → String
     (match parseWhole e, annot with
     | some e, "int" | some e, "float" =>
       let t := checkerType e
-      -- `let` and `ret` compare the checker's type with the annotation; call arguments are not
-      -- compared with parameter types by the checker (as written), so `arg` always accepts.
-      if pos == "arg" then "accept"
-      else if showTy t == annot || t == .unknown then "accept" else "reject"
+      -- `let`, `ret` and (since the fix: commit for plain calls) `arg` compare the checker's type with the
+      -- annotation / return type / parameter type.
+      let _ := pos
+      if showTy t == annot || t == .unknown then "accept" else "reject"
     | _, _ => "bad-op")
   | ["compound", op, vt, e] =>
     (match parseOp op, parseNumTy vt, parseWhole e with
